@@ -20,7 +20,7 @@ REPO = os.environ.get("VERIF_REPO", "/repo")
 CACHE = os.path.join(VERIF, ".cache")
 LEAN_DIR = os.path.join(VERIF, "lean")
 # a run against another tree (VERIF_REPO=…, used to try seeded changes) must not overwrite the evidence of /repo
-_ALT = os.path.abspath(REPO) != "/repo"
+_ALT = os.path.abspath(REPO) != "/repo" or bool(os.environ.get("VERIF_COVERAGE"))   # such runs never touch the committed evidence
 EVIDENCE_DIR = os.path.join(CACHE, "alt_evidence") if _ALT else os.path.join(VERIF, "evidence")
 REPLAY_DIR = os.path.join(CACHE, "alt_replays") if _ALT else os.path.join(VERIF, "replays")   # runs against another tree (VERIF_REPO) never touch the committed dirs
 NCPU = os.cpu_count() or 4
@@ -159,8 +159,16 @@ def _compile_one(args):
     return rc, src, e
 
 
+COVERAGE = bool(os.environ.get("VERIF_COVERAGE"))
+if COVERAGE:      # tools/coverage.py: every configuration becomes one gcov-instrumented -O0 build (g++)
+    for _k in list(CFG):
+        CFG[_k] = ["-std=gnu++17", "-O0", "-g", "--coverage", "-DNDEBUG", "-UDEBUG", "-D" + GUARD, "-w", "-DVERIF_COVERAGE_BUILD"]
+
+
 def lib_objects(cfg="S", extra=(), cxx="g++"):
     """Compile every library .C file of REPO's working tree; returns list of object files."""
+    if COVERAGE:
+        cxx = "g++"
     flags = CFG[cfg] + list(extra) + inc_flags()
     srcs = lib_sources()
     key = sha(tree_hash(), " ".join(CFG[cfg]), " ".join(extra), cxx, " ".join(srcs))
@@ -206,6 +214,8 @@ def build_harness(name, cfg="S", extra=(), link_lib=True, cxx="g++", srcdir=None
     """Compile VERIF/harness/<name>.cpp against REPO's working tree.  Returns path of binary."""
     srcdir = srcdir or os.path.join(VERIF, "harness")
     src = os.path.join(srcdir, name + ".cpp")
+    if COVERAGE:
+        cxx = "g++"
     hdrs = b""
     for f in sorted(os.listdir(srcdir)):
         if f.endswith((".h", ".inc")):
